@@ -18,7 +18,7 @@ impl FilterExecutor {
                 ArrayImpl::Bool(a) => a,
                 _ => panic!("filters can only accept bool array"),
             };
-            yield batch.filter(vis.true_array());
+            yield batch.filter(&vis.true_array());
         }
     }
 }
